@@ -29,4 +29,49 @@ func SubscriptionManager.cleanupClientWithoutLocking$1
   ensures !(old(has((*s).topics.m, topic)) && old((*s).topics.m[topic]) - count > 0) ==> !has((*s).topics.m, topic)
   -- every other topic keeps its counter
   ensures forall k Str :: k != topic ==> (has((*s).topics.m, k) <==> old(has((*s).topics.m, k))) && (has((*s).topics.m, k) ==> (*s).topics.m[k] == old((*s).topics.m[k]))
+-- Unsubscribe (its locked part): one subscription of the client to the topic goes away - the client's own counter and the
+-- topic's global counter both go down by one, each entry disappearing when nothing is left (by ITS OWN count: the global
+-- entry stays while another client still holds the topic), and the topic is reported removed exactly when its global
+-- entry disappeared. Nothing changes for a client that is not connected / not subscribed; other topics are untouched.
+func SubscriptionManager.Unsubscribe$1
+  instantiate C: string
+  instantiate T: string
+  opt sequential
+  opt assume-no-overflow
+  requires s != nil && *s != nil && (*s).subscribers != nil && (*s).subscribers.m != nil && unlocked((*s).subscribers.mutex) && (*s).topics != nil && (*s).topics.m != nil && (*s).topics.opts != nil && unlocked((*s).topics.mutex)
+  requires clientID != nil && topic != nil && topicRemoved != nil && topicUnsubscribed != nil && !*topicRemoved && !*topicUnsubscribed && topicRemoved != topicUnsubscribed
+  requires has((*s).subscribers.m, *clientID) ==> (*s).subscribers.m[*clientID] != nil && (*s).subscribers.m[*clientID].m != nil && (*s).subscribers.m[*clientID].opts != nil && unlocked((*s).subscribers.m[*clientID].mutex) && (*s).subscribers.m[*clientID] != (*s).topics && (*s).subscribers.m[*clientID].m != (*s).topics.m && (*s).subscribers.m[*clientID].m != (*s).subscribers.m
+  requires (*s).topics.m != (*s).subscribers.m      -- (maps of different Go types)
+  modifies *topicRemoved, *topicUnsubscribed, (*s).topics.m, (*s).topics.deletedKeys, allmaps((*s).topics.m), shrinkingmap.ShrinkingMap.m, shrinkingmap.ShrinkingMap.deletedKeys
+  ensures *topicUnsubscribed <==> old(has((*s).subscribers.m, *clientID) && has((*s).subscribers.m[*clientID].m, *topic))
+  ensures !*topicUnsubscribed ==> !*topicRemoved && (*s).topics.m == old((*s).topics.m) && (forall k Str :: (has((*s).topics.m, k) <==> old(has((*s).topics.m, k))) && (has((*s).topics.m, k) ==> (*s).topics.m[k] == old((*s).topics.m[k])))
+  -- the global counter of the topic, by its own value
+  ensures *topicUnsubscribed && old(has((*s).topics.m, *topic)) && old((*s).topics.m[*topic]) > 1 ==> has((*s).topics.m, *topic) && (*s).topics.m[*topic] == old((*s).topics.m[*topic]) - 1 && !*topicRemoved
+  ensures *topicUnsubscribed && old(has((*s).topics.m, *topic)) && old((*s).topics.m[*topic]) <= 1 ==> !has((*s).topics.m, *topic) && *topicRemoved
+  ensures *topicUnsubscribed && !old(has((*s).topics.m, *topic)) ==> !has((*s).topics.m, *topic) && !*topicRemoved
+  ensures forall k Str :: k != *topic ==> (has((*s).topics.m, k) <==> old(has((*s).topics.m, k))) && (has((*s).topics.m, k) ==> (*s).topics.m[k] == old((*s).topics.m[k]))
+  -- the client's own counter
+  ensures *topicUnsubscribed && old((*s).subscribers.m[*clientID].m[*topic]) > 1 ==> has((*s).subscribers.m[*clientID].m, *topic) && (*s).subscribers.m[*clientID].m[*topic] == old((*s).subscribers.m[*clientID].m[*topic]) - 1
+  ensures *topicUnsubscribed && old((*s).subscribers.m[*clientID].m[*topic]) <= 1 ==> !has((*s).subscribers.m[*clientID].m, *topic)
+  ensures *topicUnsubscribed ==> (forall k Str :: k != *topic ==> (has((*s).subscribers.m[*clientID].m, k) <==> old(has((*s).subscribers.m[*clientID].m, k))) && (has((*s).subscribers.m[*clientID].m, k) ==> (*s).subscribers.m[*clientID].m[k] == old((*s).subscribers.m[*clientID].m[k])))
+-- Subscribe (its locked part; the path on which the client is not dropped for exceeding its subscription limit): the
+-- client's counter of the topic and the topic's global counter both go up by one (a missing entry counts as 0), the topic
+-- is reported added exactly when its global entry was created, other topics are untouched; nothing changes for a client
+-- that is not connected. (The clean-up of a dropped client is the closure above; cleanupClientWithoutLocking itself is
+-- not under contract: on that path nothing is decided here.)
+func SubscriptionManager.Subscribe$1
+  instantiate C: string
+  instantiate T: string
+  opt sequential
+  opt assume-no-overflow
+  requires s != nil && *s != nil && (*s).subscribers != nil && (*s).subscribers.m != nil && unlocked((*s).subscribers.mutex) && (*s).topics != nil && (*s).topics.m != nil && (*s).topics.opts != nil && unlocked((*s).topics.mutex)
+  requires clientID != nil && topic != nil && topicAdded != nil && clientDropped != nil && removedTopics != nil && unsubscribedTopics != nil && !*topicAdded && !*clientDropped && topicAdded != clientDropped
+  requires has((*s).subscribers.m, *clientID) ==> (*s).subscribers.m[*clientID] != nil && (*s).subscribers.m[*clientID].m != nil && (*s).subscribers.m[*clientID].opts != nil && unlocked((*s).subscribers.m[*clientID].mutex) && (*s).subscribers.m[*clientID] != (*s).topics && (*s).subscribers.m[*clientID].m != (*s).topics.m && (*s).subscribers.m[*clientID].m != (*s).subscribers.m
+  requires (*s).topics.m != (*s).subscribers.m      -- (maps of different Go types)
+  modifies everything
+  ensures !old(has((*s).subscribers.m, *clientID)) ==> !*topicAdded && !*clientDropped && (*s).topics.m == old((*s).topics.m) && (forall k Str :: (has((*s).topics.m, k) <==> old(has((*s).topics.m, k))) && (has((*s).topics.m, k) ==> (*s).topics.m[k] == old((*s).topics.m[k])))
+  ensures old(has((*s).subscribers.m, *clientID)) && !*clientDropped ==> (*s).topics == old((*s).topics) && (*s).topics.m == old((*s).topics.m) && has((*s).topics.m, *topic) && (*s).topics.m[*topic] == (old(has((*s).topics.m, *topic)) ? old((*s).topics.m[*topic]) + 1 : 1) && (*topicAdded <==> !old(has((*s).topics.m, *topic)))
+  ensures old(has((*s).subscribers.m, *clientID)) && !*clientDropped ==> (forall k Str :: k != *topic ==> (has((*s).topics.m, k) <==> old(has((*s).topics.m, k))) && (has((*s).topics.m, k) ==> (*s).topics.m[k] == old((*s).topics.m[k])))
+  ensures old(has((*s).subscribers.m, *clientID)) && !*clientDropped ==> (*s).subscribers.m[*clientID] == old((*s).subscribers.m[*clientID]) && (*s).subscribers.m[*clientID].m == old((*s).subscribers.m[*clientID].m) && has((*s).subscribers.m[*clientID].m, *topic) && (*s).subscribers.m[*clientID].m[*topic] == (old(has((*s).subscribers.m[*clientID].m, *topic)) ? old((*s).subscribers.m[*clientID].m[*topic]) + 1 : 1)
+  ensures old(has((*s).subscribers.m, *clientID)) && !*clientDropped ==> (forall k Str :: k != *topic ==> (has((*s).subscribers.m[*clientID].m, k) <==> old(has((*s).subscribers.m[*clientID].m, k))) && (has((*s).subscribers.m[*clientID].m, k) ==> (*s).subscribers.m[*clientID].m[k] == old((*s).subscribers.m[*clientID].m[k])))
 @*/
